@@ -5,12 +5,13 @@ Import ListNotations.
 Open Scope string_scope.
 
 (* expressions that may be evaluated per partition: selectors under functions,
-   unary/paren/step-invariant wrappers and distributive aggregations - no binary
-   expression, no other aggregation, no literal *)
+   unary/paren/step-invariant wrappers and distributive aggregations whose
+   parameter does not read the storage - no binary expression, no other
+   aggregation, no literal *)
 Fixpoint pushable (e : expr) : bool :=
   match e with
   | EVec _ | EMat _ _ => true
-  | EAgg op _ _ _ e1 => mem_str op distributive_aggs && pushable e1
+  | EAgg op _ _ p e1 => mem_str op distributive_aggs && negb (match p with Some pe => reads_storage pe | None => false end) && pushable e1
   | ECall _ args => forallb pushable args
   | EUn _ e1 | EParen e1 | EStepInv e1 | ESubq e1 => pushable e1
   | _ => false
